@@ -292,7 +292,7 @@ Section Sha2.
     let t2 := wadd (rot3 (bsig0 c) a) (maj a b cc) in
     (wadd t1 t2, a, b, cc, wadd d t1, e, f, g).
 
-  Definition be_val (bs : list N) : N := fold_left (fun a b => a * 256 + b) bs 0.
+  Definition be_val (bs : list N) : N := fold_left (fun a b => N.shiftl a 8 + b) bs 0.
 
   Fixpoint be_words (n : nat) (bs : list N) : list N :=
     match n with
@@ -314,7 +314,7 @@ Section Sha2.
   Fixpoint be_bytes (n : nat) (v : N) : list N :=
     match n with
     | O => []
-    | S k => be_bytes k (v / 256) ++ [v mod 256]
+    | S k => be_bytes k (N.shiftr v 8) ++ [N.land v 255]
     end.
 
   Definition pad_zeros (len : nat) : nat :=
